@@ -4,6 +4,12 @@ package c10
 // (standard library only, no type checker) that turns every method of every
 // lock-carrying collection type into a straight-line list of steps
 //
+//	exit                 a return statement the walk reaches with the receiver's lock
+//	                     taken by an explicit Lock, not yet given back and no Unlock
+//	                     deferred (the one path-sensitive part of the pass: the count
+//	                     of explicit Lock / Unlock calls is followed through branches,
+//	                     the smaller count kept where paths join): the method may end
+//	                     at this step
 //	acq / rel            the method takes / releases the instance lock
 //	                     (Lock + deferred Unlock; Cond.Wait = rel, acq, both
 //	                     marked a = "wait")
@@ -362,6 +368,7 @@ func Extract(repo string, must ...string) (*Table, error) {
 		}
 		w.taint(fd.d.Body)
 		w.block(fd.d.Body)
+		w.atEnd = true
 		for i := len(w.deferred) - 1; i >= 0; i-- {
 			w.deferred[i]()
 		}
@@ -424,6 +431,13 @@ type walker struct {
 	cbs      map[string]bool   // func-typed parameters: caller code
 	steps    []Step
 	deferred []func()
+	// path-sensitive bookkeeping of the receiver's own lock (see stmt / ReturnStmt): how often the
+	// path walked so far has taken it and not given it back by an explicit Unlock, and how many
+	// Unlocks have been deferred.  Branches are walked from the state at their head; where paths
+	// join, the smaller count is kept (never predicts a leak that only one of the joined paths has).
+	heldX  int
+	defRel int
+	atEnd  bool // the deferred calls are being replayed at the end of the body
 }
 
 func (w *walker) emit(s Step) {
@@ -792,6 +806,9 @@ func (w *walker) stmt(s ast.Stmt) {
 		for _, a := range c.Args { // arguments are evaluated now
 			w.expr(a)
 		}
+		if lm, obj := w.lockCall(c); obj == "" && (lm == "Unlock" || lm == "RUnlock") {
+			w.defRel++
+		}
 		w.deferred = append(w.deferred, func() { w.call(c, false) })
 	case *ast.GoStmt:
 		w.call(t.Call, true)
@@ -808,16 +825,39 @@ func (w *walker) stmt(s ast.Stmt) {
 		for _, r := range t.Results {
 			w.expr(r)
 		}
+		// a return reached, along the path walked, with the receiver's lock taken by an explicit Lock,
+		// not given back by an explicit Unlock and no Unlock deferred: the method MAY end here (step
+		// "exit"; TLC explores both going on and ending, and judges NoLeak).  Emitted only where no
+		// release is deferred, so that ending the frame at this step skips nothing that would run.
+		if w.heldX > 0 && w.defRel == 0 {
+			w.emit(Step{K: "exit"})
+		}
 	case *ast.IfStmt:
 		w.stmt(t.Init)
 		w.expr(t.Cond)
+		h0 := w.heldX
 		w.block(t.Body)
+		hb, tb := w.heldX, terminates(t.Body)
+		w.heldX = h0
 		w.stmt(t.Else)
+		he, te := w.heldX, t.Else != nil && terminates(t.Else)
+		switch {
+		case tb && te: // what follows is reached from neither; keep the head's state
+			w.heldX = h0
+		case tb:
+			w.heldX = he
+		case te:
+			w.heldX = hb
+		default:
+			w.heldX = minInt(hb, he)
+		}
 	case *ast.ForStmt:
 		w.stmt(t.Init)
 		w.expr(t.Cond)
+		h0 := w.heldX
 		w.block(t.Body)
 		w.stmt(t.Post)
+		w.heldX = minInt(h0, w.heldX)
 	case *ast.RangeStmt:
 		w.expr(t.X)
 		if k := w.kindOf(t.X); k.alias != "" { // ranging over a slice / map field reads its elements
@@ -835,15 +875,17 @@ func (w *walker) stmt(s ast.Stmt) {
 				w.lhs(t.Value, false)
 			}
 		}
+		h0 := w.heldX
 		w.block(t.Body)
+		w.heldX = minInt(h0, w.heldX)
 	case *ast.SwitchStmt:
 		w.stmt(t.Init)
 		w.expr(t.Tag)
-		w.block(t.Body)
+		w.clauses(t.Body)
 	case *ast.TypeSwitchStmt:
 		w.stmt(t.Init)
 		w.stmt(t.Assign)
-		w.block(t.Body)
+		w.clauses(t.Body)
 	case *ast.CaseClause:
 		for _, e := range t.List {
 			w.expr(e)
@@ -852,7 +894,7 @@ func (w *walker) stmt(s ast.Stmt) {
 			w.stmt(b)
 		}
 	case *ast.SelectStmt:
-		w.block(t.Body)
+		w.clauses(t.Body)
 	case *ast.CommClause:
 		w.stmt(t.Comm)
 		for _, b := range t.Body {
@@ -875,6 +917,60 @@ func (w *walker) stmt(s ast.Stmt) {
 		}
 	}
 }
+
+// clauses walks the clauses of a switch / select, each from the state at the head; afterwards the
+// smallest count any clause that does not end in a return leaves (or the head's: no clause taken).
+func (w *walker) clauses(b *ast.BlockStmt) {
+	if b == nil {
+		return
+	}
+	h0 := w.heldX
+	out := h0
+	for _, cl := range b.List {
+		w.heldX = h0
+		w.stmt(cl)
+		var body []ast.Stmt
+		switch c := cl.(type) {
+		case *ast.CaseClause:
+			body = c.Body
+		case *ast.CommClause:
+			body = c.Body
+		}
+		if !terminatesList(body) {
+			out = minInt(out, w.heldX)
+		}
+	}
+	w.heldX = out
+}
+
+func minInt(a, b int) int {
+	if a < b {
+		return a
+	}
+	return b
+}
+
+// terminates: control never leaves the statement by falling through (it ends in a return or a
+// panic, or in an if / else whose two arms both do)
+func terminates(s ast.Stmt) bool {
+	switch t := s.(type) {
+	case *ast.BlockStmt:
+		return t != nil && terminatesList(t.List)
+	case *ast.ReturnStmt:
+		return true
+	case *ast.ExprStmt:
+		if c, ok := t.X.(*ast.CallExpr); ok {
+			if id, ok := c.Fun.(*ast.Ident); ok && id.Name == "panic" {
+				return true
+			}
+		}
+	case *ast.IfStmt:
+		return t.Else != nil && terminates(t.Body) && terminates(t.Else)
+	}
+	return false
+}
+
+func terminatesList(l []ast.Stmt) bool { return len(l) > 0 && terminates(l[len(l)-1]) }
 
 // lhs: an assignment target; also reads the target when rw (+=, ++)
 func (w *walker) lhs(e ast.Expr, rw bool) {
@@ -902,6 +998,14 @@ func (w *walker) call(c *ast.CallExpr, argsToo bool) {
 		}
 	}
 	if lm, obj := w.lockCall(c); lm != "" {
+		if obj == "" && !w.atEnd {
+			switch lm {
+			case "Lock", "RLock":
+				w.heldX++
+			case "Unlock", "RUnlock":
+				w.heldX--
+			}
+		}
 		switch lm {
 		case "Lock":
 			w.emit(Step{K: "acq", O: obj})
